@@ -5,6 +5,7 @@
 package tls
 
 import (
+	"crypto/ecdh"
 	"crypto/mlkem"
 	crand "crypto/rand"
 	"crypto/sha256"
@@ -2912,6 +2913,11 @@ func (uconn *UConn) ApplyPreset(p *ClientHelloSpec) error {
 					}
 
 					ext.KeyShares[i].Data = ecdheKey.PublicKey().Bytes()
+					// keep the private key of every share: the server may select any of them
+					if uconn.HandshakeState.State13.KeyShareKeys.EcdheByGroup == nil {
+						uconn.HandshakeState.State13.KeyShareKeys.EcdheByGroup = make(map[CurveID]*ecdh.PrivateKey)
+					}
+					uconn.HandshakeState.State13.KeyShareKeys.EcdheByGroup[curveID] = ecdheKey
 					if !preferredCurveIsSet {
 						// only do this once for the first non-grease curve
 						uconn.HandshakeState.State13.KeyShareKeys.Ecdhe = ecdheKey
